@@ -42,6 +42,10 @@ def run(prog, chk):
     from props import C11
     C11.axis_consistency(prog, chk)  # dx / dy and coordinates never cross axes (shared with C11)
     C11.emission_algebra(prog, chk)  # the position that was worked out is written as the element's native geometry
+    C11.native_only(prog, chk)  # ... and the offsets it consumed (dx / dy) are removed, not applied a second time
+    from props import C16, C10
+    C16.extent_accumulation(prog, chk)  # a group's box (what `#g|h` / `#g~x2` refer to) includes every pass of a loop inside it
+    C10.retry_progress(prog, chk)  # a forward reference (also to a <point>) is placed on the retry
     C11.extraction_algebra(prog, chk)
     from props import C17
     C17.depth_pairing(prog, chk)  # forward references are placed by retrying: a depth count leaked by a deferred attempt turns a valid chain into a limit error
